@@ -4,6 +4,7 @@ import (
 	"bytes"
 	"fmt"
 	"math/big"
+	"os"
 	"sort"
 	"strings"
 	"testing"
@@ -24,7 +25,7 @@ import (
 
 // action-kind tables: the same compiler, different emphasis per property
 var kindsByProp = map[string][]string{
-	"C12": {"sstore", "sstore", "sstore", "sload", "tstore", "tstore", "log", "log", "mem", "transfer", "transfer", "selfdestruct", "selfdestruct", "etx", "convert", "extcall", "lockup", "lockup", "precompile",
+	"C12": {"sstore", "sstore", "sstore", "sload", "tstore", "tstore", "log", "log", "mem", "transfer", "transfer", "selfdestruct", "selfdestruct", "etx", "convert", "extcall", "lockup", "lockup", "lockup", "precompile",
 		"call", "call", "call", "call", "call", "call", "call", "call", "call", "create", "create", "create", "revert", "revert", "invalid", "return"},
 	"C05": {"sstore", "log", "transfer", "selfdestruct", "etx", "etx", "etx", "etx", "etx", "convert", "convert", "convert", "extcall", "extcall", "extcall", "lockup", "lockup", "lockup",
 		"call", "call", "call", "call", "call", "call", "create", "create", "revert", "revert", "invalid", "return", "mem"},
@@ -50,6 +51,10 @@ const (
 	ampleGas      = 8_000_000
 	payerNonce    = 5
 )
+
+// noInject (EVMSIM_NO_INJECT=1) leaves out the passes in which the harness itself empties a frame's gas, so that a
+// failure can be re-found with faults a real transaction could produce on its own (gas limits, REVERT, INVALID).
+var noInject = os.Getenv("EVMSIM_NO_INJECT") != ""
 
 var payerBalance = new(big.Int).Mul(big.NewInt(1e9), e18)
 
@@ -766,7 +771,7 @@ func runBytecode(t *rapid.T, prop string) {
 		}
 		var inner []int
 		for i, s := range a.tc.steps {
-			if s.depth >= 2 {
+			if s.depth >= 2 && !noInject {
 				inner = append(inner, i)
 			}
 		}
